@@ -11,25 +11,25 @@ NOTE = ("Trusted base: rustc nightly MIR/resolution, /verif/driver (fact extract
 
 # id -> (implemented, technique, text, design_ref)
 P = {
-    "C01": (True, "MIR must-pass-through / who-may-call over the paint routine", "Static rule discharge of the emit protocol (erase->paint->flush->commit order, commit only on success, single emitter, erase-phase constants: up by rows-1 / clear exactly rows), suspend clears-before and force-redraws-after, rows measured with the wrap-aware newtype. Does not decide wrap/filler arithmetic or screen contents. Also: bar rows are exactly the split('\\n') segments of the rendered text (no lossy splitter, whole text only under a no-line-break test), and the renderer builds Bar rows only (Text/Empty only on println paths).", "3/C01"),
-    "C02": (True, "type facts + dataflow over MultiState", "Static rule discharge: exclusive-access composition (Freeze + guard ownership), frame composed through the logical ordering, every InsertLocation arm maintains ordering, slot identity, head-only reaping, member rendering refreshed before the MultiProgress limiter decides, draws of finished bars forced, zombie-row ownership pairing, wrap-aware row counts. Not linearizability or alignment arithmetic.", "3/C02"),
-    "C03": (True, "pairing-on-all-exits + const-argument + who-may-copy", "Static rule discharge: text rows never enter the erase count; println always forced; orphan lines moved not copied; zombie-row ownership transfer paired on all exits. Not screen contents. Also: finished bars are always drawn forced (their stored rows are on screen when they are dropped); renderer builds Bar rows only.", "3/C03"),
-    "C04": (True, "MIR dominance + per-variant arm effects", "Static rule discharge: forced final draw on every finish path, force flag bypasses every limiter, per-variant effects table, drop finishes exactly-once, API->variant map. Not the painted pixels. Also: rows kept for a reaped finished bar are wrap-aware row counts (newtype discipline).", "3/C04"),
-    "C05": (True, "MIR dominance (gate structure)", "Static rule discharge of the gate structure and of structural necessary conditions of the bucket law: limiter is the only gate for non-forced frames; position updates precede and do not depend on the gate; paint reads live state; every admission advances the reference time from `now` and stores a MAX_BURST-capped capacity, refusals are pure; the constants named by the statement (20 / 10 tokens, 1000 ms / rate, 1 ms). The numeric law over all arrival sequences is NOT decided. Also: every position setter consults the limiter on every path and redraws whenever it admits; a MultiProgress member's rendering is refreshed before the MultiProgress limiter decides.", "3/C05"),
-    "C06": (True, "call-graph dominance + taint (non-interference)", "Static rule discharge: terminal effects reachable only through a Drawable built under a visibility test; logical state does not depend on target kind or draw results.", "3/C06"),
+    "C01": (True, "MIR must-pass-through / who-may-call over the paint routine", "Static rule discharge of the emit protocol (erase->paint->flush->commit order, commit only on success, single emitter, erase-phase constants: up by rows-1 / clear exactly rows), suspend clears-before and force-redraws-after, rows measured with the wrap-aware newtype. Does not decide wrap/filler arithmetic or screen contents. Also: bar rows are exactly the split('\\n') segments of the rendered text (no lossy splitter, whole text only under a no-line-break test), and the renderer builds Bar rows only (Text/Empty only on println paths). Also (seed rounds 4-6): println asks for a forced drawable; every path of the paint loop writes the current line unless it leaves the loop at the height test; the Bottom-alignment shift is computed from the whole frame.", "3/C01"),
+    "C02": (True, "type facts + dataflow over MultiState", "Static rule discharge: exclusive-access composition (Freeze + guard ownership), frame composed through the logical ordering, every InsertLocation arm maintains ordering, slot identity, head-only reaping, member rendering refreshed before the MultiProgress limiter decides, draws of finished bars forced, zombie-row ownership pairing, wrap-aware row counts. Not linearizability or alignment arithmetic. Also: orphan text takes the same zombie hand-over branch as MultiProgress::println.", "3/C02"),
+    "C03": (True, "pairing-on-all-exits + const-argument + who-may-copy", "Static rule discharge: text rows never enter the erase count; println always forced; orphan lines moved not copied; zombie-row ownership transfer paired on all exits. Not screen contents. Also: finished bars are always drawn forced (their stored rows are on screen when they are dropped); renderer builds Bar rows only. Also: the user closure of suspend runs only under the state lock and the region is wiped through MultiState::clear; only the rows LineAdjust::Keep actually released are counted as zombie rows; orphan text hands the zombie rows over; counted rows are adjacent to the frame (known finding: Bottom-alignment padding).", "3/C03"),
+    "C04": (True, "MIR dominance + per-variant arm effects", "Static rule discharge: forced final draw on every finish path, force flag bypasses every limiter, per-variant effects table, drop finishes exactly-once, API->variant map. Not the painted pixels. Also: rows kept for a reaped finished bar are wrap-aware row counts (newtype discipline). Also: the position is set to the length on every path of a finishing variant that has a known length (no extra condition).", "3/C04"),
+    "C05": (True, "MIR dominance (gate structure)", "Static rule discharge of the gate structure and of structural necessary conditions of the bucket law: limiter is the only gate for non-forced frames; position updates precede and do not depend on the gate; paint reads live state; every admission advances the reference time from `now` and stores a MAX_BURST-capped capacity, refusals are pure; the constants named by the statement (20 / 10 tokens, 1000 ms / rate, 1 ms). The numeric law over all arrival sequences is NOT decided. Also: every position setter consults the limiter on every path and redraws whenever it admits; a MultiProgress member's rendering is refreshed before the MultiProgress limiter decides. Also: every draw call passes a constant force flag or the caller's own; the limiter compares the whole elapsed Duration; capacity is written by allow/new only.", "3/C05"),
+    "C06": (True, "call-graph dominance + taint (non-interference)", "Static rule discharge: terminal effects reachable only through a Drawable built under a visibility test; logical state does not depend on target kind or draw results. Also: remove() hides on every path and changes no logical state.", "3/C06"),
     "C07": (True, "atomic-RMW dataflow + panic-edge ledger", "Static rule discharge: single-RMW discipline on the shared position, update before gate, saturating length arithmetic, fraction clamp, no unaudited panic edge in the position/length API. Also: per-variant effect of finishing on the position (variant-specialised CFG).", "3/C07"),
-    "C08": (True, "lock-order/join graph acyclicity over lock classes", "Static rule discharge: lock+join graph acyclic, no guard across blocking waits, stop protocol shape, weak-only ticker captures, no guard in public signatures. 'Promptly' as a time bound is not decided.", "3/C08"),
-    "C09": (True, "MIR dominance (zero cases, update guard) + who-may-write / overwrite-on-all-paths (reset) + source-to-sink dataflow (time-based weights)", "PARTIAL - structural skeleton only. Static rule discharge of the clauses whose truth is in the shape of the code: eta is rate-derived only on edges where the bar is unfinished, the length known and the rate compared non-zero, and zero only on the complementary edges; duration = elapsed + eta on its live path; reset overwrites every history-carrying estimator field from constants/now, estimator fields are written by new/record/reset only, reset_eta/reset/backwards seek all reach it; every smoothing weight is a function of one Instant difference (now - prev_time decay, now - start_time normalisation) and the reported rate is re-weighted for the stall and divided by the total weight; every rate store in record is dominated by edges implying steps and time strictly advanced; no unaudited panic edge. The numeric laws (finite, non-negative, bounded by the largest observed rate, monotone decay, equal to the true rate for steady progress) are NOT decided: they are laws over f64 values and update histories that no sound static argument in reach bounds.", "3/C09"),
-    "C10": (True, "panic-edge ledger (totality)", "Static rule discharge of totality: no unaudited panic edge reachable from with_template/template. Of the fidelity half only two structural necessary conditions (rows are the split('\\n') segments of the rendered text, never those of a lossy splitter such as lines(); every placeholder starts from an empty scratch buffer). The rest of rendering fidelity (string equality over the grammar) is NOT decided.", "3/C10"),
-    "C11": (True, "dispatch-table arm-effects vs documented keys", "Static rule discharge: each documented key has an arm that formats the expected accessor with the expected formatter; the shared scratch buffer is fresh for every placeholder; tracker write/tick/reset lifecycle and ordering; final tick string when finished. Not text equality.", "3/C11"),
-    "C12": (True, "unit (qualifier) inference Cols/Bytes", "Static rule discharge of unit discipline (columns vs bytes never mixed; no column value as byte offset), padding structure per alignment, every width placeholder always goes through the padded field, wide_msg is a truncating rest-of-line field. Rendered width for all strings is NOT decided; the truncation defect is a listed known finding. Also: wide_msg's field width is exactly the rest of the line (independent of the message, never narrowed).", "3/C12"),
-    "C13": (True, "dataflow + comparison-fact (dominating edge) analysis + operand polarity over format_bar / BarDisplay", "PARTIAL - structural clauses only. Static rule discharge: the cell count is the integer quotient width / char_width and the raw width is used for nothing else; filled = truncation of fraction * cells (no rounding call); the partial-cell flag is true exactly under fill > 0 and filled < cells (both strict, nothing else); the partial cell exists iff the flag is set, its index derives from the configured characters and is never increased; background = cells - filled - flag (polarity of each operand) with non-wrapping subtraction, drawn with the last configured character; BarDisplay writes chars[0] filled times, then chars[cur] once, then the background, in that order; format_bar is given ProgressState::fraction(), which is clamped to [0,1]; wide_bar's width is the terminal width minus the measured rest of the line and is never enlarged. NOT decided: off-by-one cell counts / partial-cell indices caused by f32 rounding at particular (fraction, width, charset) triples, monotonicity in the position, exactness up to 2^24 - these need the values.", "3/C13"),
-    "C14": (True, "field-invariant producer/consumer + panic ledger", "Static rule discharge: every divisor/index bound the renderer takes from a style table is established by a guard at every public writer of that table; render-path panic ledger.", "3/C14"),
-    "C15": (True, "panic-edge ledger (totality)", "Static rule discharge of totality: no unaudited panic edge in format.rs Display impls; plus one structural faithfulness clause (HumanCount digits come from u64 formatting, no float detour). Rounding/monotonicity NOT decided. Also: the grouped integer digits pass through no character-removing operation.", "3/C15"),
-    "C16": (True, "setter/holder completeness dataflow", "Static rule discharge: every text setter expands with the bar's current width; every width/style change reaches every holder of expanded text; cache invalidation pairing; encapsulation of the raw text.", "3/C16"),
+    "C08": (True, "lock-order/join graph acyclicity over lock classes", "Static rule discharge: lock+join graph acyclic, no guard across blocking waits, stop protocol shape, weak-only ticker captures, no guard in public signatures. 'Promptly' as a time bound is not decided. Also: the ticker thread leaves its loop only on stop/upgrade failure/finished (never on a draw result) and its own code has no unaudited panic edge.", "3/C08"),
+    "C09": (True, "MIR dominance (zero cases, update guard) + who-may-write / overwrite-on-all-paths (reset) + source-to-sink dataflow (time-based weights)", "PARTIAL - structural skeleton only. Static rule discharge of the clauses whose truth is in the shape of the code: eta is rate-derived only on edges where the bar is unfinished, the length known and the rate compared non-zero, and zero only on the complementary edges; duration = elapsed + eta on its live path; reset overwrites every history-carrying estimator field from constants/now, estimator fields are written by new/record/reset only, reset_eta/reset/backwards seek all reach it; every smoothing weight is a function of one Instant difference (now - prev_time decay, now - start_time normalisation) and the reported rate is re-weighted for the stall and divided by the total weight; every rate store in record is dominated by edges implying steps and time strictly advanced; no unaudited panic edge. The numeric laws (finite, non-negative, bounded by the largest observed rate, monotone decay, equal to the true rate for steady progress) are NOT decided: they are laws over f64 values and update histories that no sound static argument in reach bounds. Also: an early zero return for remaining == 0 is an accepted zero case; conditions are decided on the constant-folded CFG.", "3/C09"),
+    "C10": (True, "panic-edge ledger (totality)", "Static rule discharge of totality: no unaudited panic edge reachable from with_template/template. Of the fidelity half only two structural necessary conditions (rows are the split('\\n') segments of the rendered text, never those of a lossy splitter such as lines(); every placeholder starts from an empty scratch buffer). The rest of rendering fidelity (string equality over the grammar) is NOT decided. Also: a pending '{' is never dropped by a state transition; the parser iterates chars, not bytes; the padded field uses exactly the declared width/alignment/truncate flag.", "3/C10"),
+    "C11": (True, "dispatch-table arm-effects vs documented keys", "Static rule discharge: each documented key has an arm that formats the expected accessor with the expected formatter; the shared scratch buffer is fresh for every placeholder; tracker write/tick/reset lifecycle and ordering; final tick string when finished. Not text equality. Also: a known length is rendered unmodified; position and length default are sampled once per frame, before the loop over the template parts.", "3/C11"),
+    "C12": (True, "unit (qualifier) inference Cols/Bytes", "Static rule discharge of unit discipline (columns vs bytes never mixed; no column value as byte offset), padding structure per alignment, every width placeholder always goes through the padded field, wide_msg is a truncating rest-of-line field. Rendered width for all strings is NOT decided; the truncation defect is a listed known finding. Also: wide_msg's field width is exactly the rest of the line (independent of the message, never narrowed). Also: the parsed width is stored unchanged; conservation laws on linear forms per alignment: truncation removes exactly the excess, the runs of spaces written around the content add up to width - columns (counted repetitions, constant chunks and prefixes; a run under a condition is not accepted) and sit on the side(s) the alignment chooses.", "3/C12"),
+    "C13": (True, "dataflow + comparison-fact (dominating edge) analysis + operand polarity over format_bar / BarDisplay", "PARTIAL - structural clauses only. Static rule discharge: the cell count is the integer quotient width / char_width and the raw width is used for nothing else; filled = truncation of fraction * cells (no rounding call); the partial-cell flag is true exactly under fill > 0 and filled < cells (both strict, nothing else); the partial cell exists iff the flag is set, its index derives from the configured characters and is never increased; background = cells - filled - flag (polarity of each operand) with non-wrapping subtraction, drawn with the last configured character; BarDisplay writes chars[0] filled times, then chars[cur] once, then the background, in that order; format_bar is given ProgressState::fraction(), which is clamped to [0,1]; wide_bar's width is the terminal width minus the measured rest of the line and is never enlarged. NOT decided: off-by-one cell counts / partial-cell indices caused by f32 rounding at particular (fraction, width, charset) triples, monotonicity in the position, exactness up to 2^24 - these need the values. Also: the cached character width is measured on the table installed by the same call; the rendered wide bar is not trimmed.", "3/C13"),
+    "C14": (True, "field-invariant producer/consumer + panic ledger", "Static rule discharge: every divisor/index bound the renderer takes from a style table is established by a guard at every public writer of that table; render-path panic ledger. Also: row counts stay finite for every terminal width including 0 (every float division converted to a row count has a divisor that cannot be zero).", "3/C14"),
+    "C15": (True, "panic-edge ledger (totality)", "Static rule discharge of totality: no unaudited panic edge in format.rs Display impls; plus one structural faithfulness clause (HumanCount digits come from u64 formatting, no float detour). Rounding/monotonicity NOT decided. Also: the grouped integer digits pass through no character-removing operation. Also: the byte-unit wrappers delegate the choice of prefix to NumberPrefix; FormattedDuration's displayed numbers are exactly S/86400, S/3600%24, S/60%60, S%60 of the whole seconds (flow-sensitive symbolic evaluation, div/mod normal forms, lossless casts), in order, days omitted only when zero.", "3/C15"),
+    "C16": (True, "setter/holder completeness dataflow", "Static rule discharge: every text setter expands with the bar's current width; every width/style change reaches every holder of expanded text; cache invalidation pairing; encapsulation of the raw text. Also: literals produced by the parser's backtrack arm go through the tab-aware constructor.", "3/C16"),
     "C17": (True, "wrapper transparency + effect placement + sibling agreement", "Static rule discharge over every trait method implemented for ProgressBarIter and the rayon wrappers: arguments/results pass through, count exactly once on success from the transferred amount, sync/async siblings agree. Not rayon scheduling. Also: with all failure edges of tests on the wrapped result removed, every path to a return executes the counting effect (no extra condition guards the count).", "3/C17"),
-    "C18": (True, "error-discipline rules over MIR (no-unwrap, pure Err exits, commit-on-success, result reporting)", "Static rule discharge: no io::Result is unwrapped; Err exits are pure; commit only after a successful flush; explicit io::Result APIs return the draw result. Also: no io::Result is swallowed inside an io::Result-returning function (Err-discarding combinators); a failed terminal operation is never re-issued from its own error edge.", "3/C18"),
-    "C19": (True, "who-constructs (newtype) + control dependence", "Static rule discharge: row accounting uses the wrap-aware measure everywhere, painting of bar lines is guarded by the terminal height, committed count equals painted rows. Not the wrap arithmetic itself. Also: bar rows are the split('\\n') segments of the rendered text; the renderer builds Bar rows only.", "3/C19"),
+    "C18": (True, "error-discipline rules over MIR (no-unwrap, pure Err exits, commit-on-success, result reporting)", "Static rule discharge: no io::Result is unwrapped; Err exits are pure; commit only after a successful flush; explicit io::Result APIs return the draw result. Also: no io::Result is swallowed inside an io::Result-returning function (Err-discarding combinators); a failed terminal operation is never re-issued from its own error edge. Also: the ticker thread does not exit on a draw error; no assertion, unwrap or unguarded row subtraction depends on the on-screen row count (committed only on success, hence stale after a failed draw).", "3/C18"),
+    "C19": (True, "who-constructs (newtype) + control dependence", "Static rule discharge: row accounting uses the wrap-aware measure everywhere, painting of bar lines is guarded by the terminal height, committed count equals painted rows. Not the wrap arithmetic itself. Also: bar rows are the split('\\n') segments of the rendered text; the renderer builds Bar rows only. Also: every path of the paint loop writes the current line unless it leaves the loop at the height test; the Bottom-alignment shift uses the whole frame height.", "3/C19"),
 }
 
 NA = {
